@@ -85,6 +85,21 @@ hint_obj = st.one_of(valid_tcp(), valid_tcp(), mutated_tcp(), mutated_tcp(), rel
 @st.composite
 def hint_lists(draw, allow_nonobjects=True):
     hs = draw(st.lists(hint_obj, min_size=0, max_size=6))
+    # related elements: a copy of a direct/tor entry with its type flipped, its priority changed, or unchanged,
+    # placed before or after the original (the same address listed twice, by hand or by two interfaces)
+    for _ in range(draw(st.sampled_from([0, 0, 1, 2]))):
+        cands = [h for h in hs if isinstance(h, dict) and h.get("type") in ("direct-tcp-v1", "tor-tcp-v1")]
+        if not cands:
+            break
+        src = cands[draw(st.integers(0, len(cands) - 1))]
+        twin = dict(src)
+        how = draw(st.sampled_from(["flip-type", "flip-type", "priority", "same"]))
+        if how == "flip-type":
+            twin["type"] = "tor-tcp-v1" if src.get("type") == "direct-tcp-v1" else "direct-tcp-v1"
+        elif how == "priority":
+            twin["priority"] = draw(priority)
+        pos = hs.index(src)
+        hs.insert(pos if draw(st.booleans()) else pos + 1, twin)
     nonobj = False
     if allow_nonobjects and draw(st.integers(0, 9)) == 0:
         hs.insert(draw(st.integers(0, len(hs))), draw(st.one_of(json_scalar, st.lists(json_scalar, max_size=2))))
